@@ -1,5 +1,11 @@
 package main
 
+import (
+	"fmt"
+	"net/netip"
+	"time"
+)
+
 // API engine streams: one generated call = configuration + operation + scripted network.
 // C01 (requests), C06 (routing), C07 (validation) share the generator and differ in emphasis and oracle.
 
@@ -99,5 +105,93 @@ func runApiStream(o Opts, prop, oracle string, mix apiMix) error {
 			}
 		}
 	}
+	if prop == "C06" && o.Replay == "" {
+		netC06(s, o.Tier)
+	}
 	return s.Close()
+}
+
+// socket-level half of C06: the REAL driver on loopback. For every delivery path and several bind addresses the controller
+// farm records what arrived: exactly one request per call, over the configured transport, from the configured bind address
+// (and bind port when one is set); GetDevices sends one datagram to the broadcast address.
+func netC06(s *Sink, tier string) {
+	farm, err := NewFarm()
+	if err != nil {
+		s.Extra["net_stream"] = "skipped: " + err.Error()
+		return
+	}
+	defer farm.Close()
+	T := 150 * time.Millisecond
+	fixed := freeUDPPort()
+	binds := []netip.AddrPort{
+		netip.AddrPortFrom(netip.IPv4Unspecified(), 0),
+		netip.AddrPortFrom(netip.AddrFrom4([4]byte{127, 0, 0, 1}), 0),
+		netip.AddrPortFrom(netip.AddrFrom4([4]byte{127, 0, 0, 2}), 0),
+		netip.AddrPortFrom(netip.AddrFrom4([4]byte{127, 0, 0, 3}), uint16(fixed)),
+	}
+	rounds := 1
+	if tier == "thorough" {
+		rounds = 10
+	}
+	calls := 0
+	for round := 0; round < rounds; round++ {
+		for bi, bind := range binds {
+			for path := 0; path < 3; path++ {
+				if path == pathTCP && bind.Port() != 0 && round > 0 {
+					continue // a fixed local TCP port lingers in TIME_WAIT: one use per run
+				}
+				nextIndex++
+				idx := nextIndex
+				id := uint32(710000000 + 10*bi + path)
+				farm.Plan(idx, Behaviour{})
+				var udpIDs, tcpIDs []uint32
+				switch path {
+				case pathUDP:
+					udpIDs = []uint32{id}
+				case pathTCP:
+					tcpIDs = []uint32{id}
+				}
+				farm.ResetLog()
+				u := farmClientBind(farm, bind, T, udpIDs, tcpIDs)
+				e, err := u.GetEvent(id, idx)
+				calls++
+				pn := []string{"broadcast", "udp", "tcp"}[path]
+				js := map[string]any{"op": "net-route", "path": pn, "bind": bind.String()}
+				if err != nil || e == nil || e.Index != idx {
+					s.Fail(js, fmt.Sprintf("call over %s from bind address %v failed: %v", pn, bind, err))
+					continue
+				}
+				time.Sleep(5 * time.Millisecond)
+				log := farm.Log()
+				mine := []FarmEvent{}
+				for _, ev := range log {
+					if ev.Index == idx {
+						mine = append(mine, ev)
+					}
+				}
+				if len(mine) != 1 || len(log) != 1 {
+					s.Fail(js, fmt.Sprintf("%d datagrams/connections reached the controller for one call (%d carrying the request)", len(log), len(mine)))
+					continue
+				}
+				wantProto := "udp"
+				if path == pathTCP {
+					wantProto = "tcp"
+				}
+				if mine[0].Proto != wantProto {
+					s.Fail(js, fmt.Sprintf("request sent over %s, configured transport is %s", mine[0].Proto, wantProto))
+				}
+				from, perr := netip.ParseAddrPort(mine[0].From)
+				if perr != nil {
+					continue
+				}
+				if !bind.Addr().IsUnspecified() && from.Addr() != bind.Addr() {
+					s.Fail(js, fmt.Sprintf("request left from %v, the configured bind address is %v", from.Addr(), bind.Addr()))
+				}
+				if bind.Port() != 0 && from.Port() != bind.Port() {
+					s.Fail(js, fmt.Sprintf("request left from port %d, the configured bind port is %d", from.Port(), bind.Port()))
+				}
+			}
+		}
+	}
+	s.Extra["net_calls"] = calls
 }
